@@ -13,6 +13,7 @@ import (
 	"time"
 
 	"github.com/netflix/rend/handlers"
+	"github.com/netflix/rend/handlers/memcached"
 	"github.com/netflix/rend/handlers/memcached/batched"
 	"github.com/netflix/rend/handlers/memcached/chunked"
 	"github.com/netflix/rend/handlers/memcached/std"
@@ -271,13 +272,37 @@ type Conn struct {
 	idle      chan int
 }
 
+// pooledHandler gives a connection its handler on the batching pool of sock the way the
+// deployment does: app/memproxy.go calls the constructor memcached.Batched(sock, opts) ONCE and
+// hands the resulting handlers.HandlerConst to server.ListenAndServe, which calls it for every
+// accepted connection. One HandlerConst per socket, one call per connection.
+var (
+	pooledMu     sync.Mutex
+	pooledConsts = map[string]handlers.HandlerConst{}
+)
+
+func pooledHandler(sock string) handlers.Handler {
+	pooledMu.Lock()
+	hc, ok := pooledConsts[sock]
+	if !ok {
+		hc = memcached.Batched(sock, BatchOpts)
+		pooledConsts[sock] = hc
+	}
+	pooledMu.Unlock()
+	h, err := hc()
+	if err != nil {
+		panic(err)
+	}
+	return h
+}
+
 // Dial starts a server loop for a new client connection on the given deployment.
 func Dial(b *Backends, cfg Config) *Conn {
 	cl, srv := BufPipe()
 	var l1 handlers.Handler
 	switch {
 	case cfg.L1Sock != "":
-		l1 = batched.NewHandler(cfg.L1Sock, BatchOpts)
+		l1 = pooledHandler(cfg.L1Sock)
 	case cfg.L1 == "chunked":
 		l1 = chunked.NewHandler(b.L1.Pipe())
 	default:
@@ -287,7 +312,7 @@ func Dial(b *Backends, cfg Config) *Conn {
 	if cfg.Orca == "l1only" {
 		l2, _ = handlers.NilHandler()
 	} else if cfg.L2Sock != "" {
-		l2 = batched.NewHandler(cfg.L2Sock, BatchOpts)
+		l2 = pooledHandler(cfg.L2Sock)
 	} else {
 		l2 = std.NewHandler(b.L2.Pipe())
 	}
